@@ -47,7 +47,12 @@ class Codec:
                 for tag in group.tags:
                     self._addTag(body, tag, group)
         else:
-            body.append("%s=%s" % (t, msg[t]))
+            value = str(msg[t])
+            if not value or self.SOH in value:
+                raise EncodingError(
+                    f"Tag {t}: empty value or value with SOH can't be sent: {value!r}"
+                )
+            body.append("%s=%s" % (t, value))
 
     def encode(
         self,
@@ -80,9 +85,16 @@ class Codec:
                 FTag.SendingTime,
                 FTag.SenderCompID,
                 FTag.TargetCompID,
+                # framing of a decoded message (sent on), always generated
+                FTag.BeginString,
+                FTag.BodyLength,
+                FTag.MsgType,
+                FTag.CheckSum,
             }:
                 continue
             self._addTag(fields, t, msg)
+        if not str(msg_type) or self.SOH in str(msg_type):
+            raise EncodingError(f"MsgType can't be sent: {msg_type!r}")
         # text that can't be sent (e.g. lone surrogates) raises here
         self.SOH.join(fields).encode("utf-8")
 
